@@ -40,6 +40,8 @@ def inputs(run: Run, cfg: dict, want_fstrings: bool = False) -> list[dict]:
                 add(alpha.concretise(a, rng, v), f"chargen:{sub}:v{v}")
     for c in gens.lexgen(run, 3 if run.tier == "quick" else 4):
         add(c["src"], "lexgen")
+    for c in gens.indent(run):
+        add(c["src"], "indent.tla")
     sents = pyprog.sentences(run, run.tier, gram.load_ref(), only={"expr", "simple", "compound", "lambda", "params", "imports", "patterns", "try", "displays"})
     for c in pyprog.programs(run, run.tier, sents, 2, 2, cap_per_layer=cfg["cap"]):
         add(c["src"], "program:" + c["layout"])
